@@ -12,6 +12,7 @@ Emits data only; fail-closed (every unrecognised shape raises `ExtractError`).
 * `taskCaptureSeq`      – the statement order of `CaptureManager.task_capture`
 * `collectLogSeq`       – what the `pytask_collect_log` wrapper does before yielding
 * `capturePhases`       – which hook wrapper labels its sections with which `when`
+* `postParseOrder`      – pluggy call order of the `pytask_post_parse` implementations (module names)
 """
 from __future__ import annotations
 
@@ -204,8 +205,56 @@ def capture_phases(X):
     return rows
 
 
+# `pytask_post_parse` implementations and what the model knows about their effect on process-global state.
+# "modelled": Capture.lean gives them an effect; "neutral": read and found to touch only the config dict / plugin
+# registrations. Anything else is unknown to the model -> fail closed.
+POST_PARSE_MODELLED = {"capture", "database", "debugging", "logging"}
+POST_PARSE_NEUTRAL = {"config", "mark", "execute", "warnings", "live", "build", "profile", "parameters", "skipping",
+                      "persist", "collect", "dag", "task", "provisional", "nodes", "data_catalog"}
+
+
+def post_parse_order(X):
+    import sys as _sys
+    _sys.path.insert(0, str(X.REPO / "src"))
+    try:
+        from _pytask.pluginmanager import get_plugin_manager
+        pm = get_plugin_manager()
+    except Exception as e:  # noqa: BLE001
+        raise X.ExtractError(f"cannot instantiate plugin manager: {type(e).__name__}: {e}") from None
+    caller = pm.hook.pytask_post_parse
+    names = []
+    for impl in reversed(caller.get_hookimpls()):
+        if impl.plugin_name.startswith("verif_probe"):
+            continue
+        if impl.hookwrapper or getattr(impl, "wrapper", False):
+            raise X.ExtractError(f"pytask_post_parse has a wrapper implementation in {impl.plugin_name}")
+        mod = impl.plugin_name.split(".")[-1]
+        if mod not in POST_PARSE_MODELLED | POST_PARSE_NEUTRAL:
+            raise X.ExtractError(f"pytask_post_parse implemented by unmodelled plugin {impl.plugin_name!r}")
+        names.append(mod)
+    if "capture" not in names:
+        raise X.ExtractError("capture.pytask_post_parse is not registered")
+    return names
+
+
+def unconfigure_known(X):
+    """Every `pytask_unconfigure` implementation must be one the model gives a meaning to."""
+    import sys as _sys
+    _sys.path.insert(0, str(X.REPO / "src"))
+    from _pytask.pluginmanager import get_plugin_manager
+    pm = get_plugin_manager()
+    for impl in pm.hook.pytask_unconfigure.get_hookimpls():
+        mod = impl.plugin_name.split(".")[-1]
+        if mod.startswith("verif_probe"):
+            continue
+        if mod not in {"task", "logging", "provisional", "debugging", "build", "capture", "database", "collect"}:
+            raise X.ExtractError(f"pytask_unconfigure implemented by unmodelled plugin {impl.plugin_name!r}")
+
+
 def capture_section() -> list[str]:
     X = _mod()
+    ppo = post_parse_order(X)
+    unconfigure_known(X)
     tab = multicapture_table(X)
     pp = post_parse_seq(X)
     tc = task_capture_seq(X)
@@ -224,5 +273,7 @@ def capture_section() -> list[str]:
     L.append(f"def collectLogSeq : List String := {X.lean_list(cl, s)}")
     L.append("/-- hook wrapper ↦ `when` label of its report sections. -/")
     L.append("def capturePhases : List (String × String) := " + X.lean_list(ph, lambda r: f"({s(r[0])}, {s(r[1])})"))
+    L.append("/-- pluggy call order of the `pytask_post_parse` implementations. -/")
+    L.append(f"def postParseOrder : List String := {X.lean_list(ppo, s)}")
     L.append("")
     return L
